@@ -351,49 +351,89 @@ pub mod p_HeapBytes__LockedRW__view_serde_json;
 pub mod p_HeapBytes__LockedRW__view_bincode;
 pub mod p_HeapBytes__LockedRW__view_to_vec;
 pub mod p_HeapBytes__LockedRW__view_iter;
+pub mod p_HeapBytes__LockedRW__zeroize_then_readonly;
+pub mod p_HeapBytes__LockedRW__zeroize_then_readwrite;
 pub mod p_HeapBytes__LockedRO__view_serde_json;
 pub mod p_HeapBytes__LockedRO__view_bincode;
 pub mod p_HeapBytes__LockedRO__view_to_vec;
 pub mod p_HeapBytes__LockedRO__view_iter;
+pub mod p_HeapBytes__LockedRO__zeroize_then_readonly;
+pub mod p_HeapBytes__LockedRO__zeroize_then_readwrite;
 pub mod p_HeapBytes__UnlockedRW__view_to_vec;
 pub mod p_HeapBytes__UnlockedRW__view_iter;
+pub mod p_HeapBytes__UnlockedRW__zeroize_then_readonly;
+pub mod p_HeapBytes__UnlockedRW__zeroize_then_readwrite;
 pub mod p_HeapBytes__UnlockedRO__view_to_vec;
 pub mod p_HeapBytes__UnlockedRO__view_iter;
+pub mod p_HeapBytes__UnlockedRO__zeroize_then_readonly;
+pub mod p_HeapBytes__UnlockedRO__zeroize_then_readwrite;
+pub mod p_HeapBytes__UnlockedNA__zeroize_then_readonly;
+pub mod p_HeapBytes__UnlockedNA__zeroize_then_readwrite;
 pub mod p_HeapBytes__UnlockedNA__t_mlock;
 pub mod p_HeapByteArray32__LockedRW__view_serde_json;
 pub mod p_HeapByteArray32__LockedRW__view_bincode;
 pub mod p_HeapByteArray32__LockedRW__view_to_vec;
 pub mod p_HeapByteArray32__LockedRW__view_iter;
+pub mod p_HeapByteArray32__LockedRW__zeroize_then_readonly;
+pub mod p_HeapByteArray32__LockedRW__zeroize_then_readwrite;
 pub mod p_HeapByteArray32__LockedRO__view_to_vec;
 pub mod p_HeapByteArray32__LockedRO__view_iter;
+pub mod p_HeapByteArray32__LockedRO__zeroize_then_readonly;
+pub mod p_HeapByteArray32__LockedRO__zeroize_then_readwrite;
 pub mod p_HeapByteArray32__UnlockedRW__view_to_vec;
 pub mod p_HeapByteArray32__UnlockedRW__view_iter;
+pub mod p_HeapByteArray32__UnlockedRW__zeroize_then_readonly;
+pub mod p_HeapByteArray32__UnlockedRW__zeroize_then_readwrite;
 pub mod p_HeapByteArray32__UnlockedRO__view_to_vec;
 pub mod p_HeapByteArray32__UnlockedRO__view_iter;
+pub mod p_HeapByteArray32__UnlockedRO__zeroize_then_readonly;
+pub mod p_HeapByteArray32__UnlockedRO__zeroize_then_readwrite;
+pub mod p_HeapByteArray32__UnlockedNA__zeroize_then_readonly;
+pub mod p_HeapByteArray32__UnlockedNA__zeroize_then_readwrite;
 pub mod p_HeapByteArray32__UnlockedNA__t_mlock;
 pub mod p_HeapByteArray4096__LockedRW__view_serde_json;
 pub mod p_HeapByteArray4096__LockedRW__view_bincode;
 pub mod p_HeapByteArray4096__LockedRW__view_to_vec;
 pub mod p_HeapByteArray4096__LockedRW__view_iter;
+pub mod p_HeapByteArray4096__LockedRW__zeroize_then_readonly;
+pub mod p_HeapByteArray4096__LockedRW__zeroize_then_readwrite;
 pub mod p_HeapByteArray4096__LockedRO__view_to_vec;
 pub mod p_HeapByteArray4096__LockedRO__view_iter;
+pub mod p_HeapByteArray4096__LockedRO__zeroize_then_readonly;
+pub mod p_HeapByteArray4096__LockedRO__zeroize_then_readwrite;
 pub mod p_HeapByteArray4096__UnlockedRW__view_to_vec;
 pub mod p_HeapByteArray4096__UnlockedRW__view_iter;
+pub mod p_HeapByteArray4096__UnlockedRW__zeroize_then_readonly;
+pub mod p_HeapByteArray4096__UnlockedRW__zeroize_then_readwrite;
 pub mod p_HeapByteArray4096__UnlockedRO__view_to_vec;
 pub mod p_HeapByteArray4096__UnlockedRO__view_iter;
+pub mod p_HeapByteArray4096__UnlockedRO__zeroize_then_readonly;
+pub mod p_HeapByteArray4096__UnlockedRO__zeroize_then_readwrite;
+pub mod p_HeapByteArray4096__UnlockedNA__zeroize_then_readonly;
+pub mod p_HeapByteArray4096__UnlockedNA__zeroize_then_readwrite;
 pub mod p_HeapByteArray4096__UnlockedNA__t_mlock;
 pub mod p_HeapBytesPagePlusSpare__LockedRW__view_serde_json;
 pub mod p_HeapBytesPagePlusSpare__LockedRW__view_bincode;
 pub mod p_HeapBytesPagePlusSpare__LockedRW__view_to_vec;
 pub mod p_HeapBytesPagePlusSpare__LockedRW__view_iter;
+pub mod p_HeapBytesPagePlusSpare__LockedRW__zeroize_then_readonly;
+pub mod p_HeapBytesPagePlusSpare__LockedRW__zeroize_then_readwrite;
 pub mod p_HeapBytesPagePlusSpare__LockedRO__view_serde_json;
 pub mod p_HeapBytesPagePlusSpare__LockedRO__view_bincode;
 pub mod p_HeapBytesPagePlusSpare__LockedRO__view_to_vec;
 pub mod p_HeapBytesPagePlusSpare__LockedRO__view_iter;
+pub mod p_HeapBytesPagePlusSpare__LockedRO__zeroize_then_readonly;
+pub mod p_HeapBytesPagePlusSpare__LockedRO__zeroize_then_readwrite;
 pub mod p_HeapBytesPagePlusSpare__UnlockedRW__view_to_vec;
 pub mod p_HeapBytesPagePlusSpare__UnlockedRW__view_iter;
+pub mod p_HeapBytesPagePlusSpare__UnlockedRW__zeroize_then_readonly;
+pub mod p_HeapBytesPagePlusSpare__UnlockedRW__zeroize_then_readwrite;
 pub mod p_HeapBytesPagePlusSpare__UnlockedRO__view_to_vec;
 pub mod p_HeapBytesPagePlusSpare__UnlockedRO__view_iter;
+pub mod p_HeapBytesPagePlusSpare__UnlockedRO__zeroize_then_readonly;
+pub mod p_HeapBytesPagePlusSpare__UnlockedRO__zeroize_then_readwrite;
+pub mod p_HeapBytesPagePlusSpare__UnlockedNA__zeroize_then_readonly;
+pub mod p_HeapBytesPagePlusSpare__UnlockedNA__zeroize_then_readwrite;
 pub mod p_HeapBytesPagePlusSpare__UnlockedNA__t_mlock;
 
 const PROGS: &[(&str, fn())] = &[
@@ -749,49 +789,89 @@ const PROGS: &[(&str, fn())] = &[
     ("HeapBytes__LockedRW__view_bincode", p_HeapBytes__LockedRW__view_bincode::run as fn()),
     ("HeapBytes__LockedRW__view_to_vec", p_HeapBytes__LockedRW__view_to_vec::run as fn()),
     ("HeapBytes__LockedRW__view_iter", p_HeapBytes__LockedRW__view_iter::run as fn()),
+    ("HeapBytes__LockedRW__zeroize_then_readonly", p_HeapBytes__LockedRW__zeroize_then_readonly::run as fn()),
+    ("HeapBytes__LockedRW__zeroize_then_readwrite", p_HeapBytes__LockedRW__zeroize_then_readwrite::run as fn()),
     ("HeapBytes__LockedRO__view_serde_json", p_HeapBytes__LockedRO__view_serde_json::run as fn()),
     ("HeapBytes__LockedRO__view_bincode", p_HeapBytes__LockedRO__view_bincode::run as fn()),
     ("HeapBytes__LockedRO__view_to_vec", p_HeapBytes__LockedRO__view_to_vec::run as fn()),
     ("HeapBytes__LockedRO__view_iter", p_HeapBytes__LockedRO__view_iter::run as fn()),
+    ("HeapBytes__LockedRO__zeroize_then_readonly", p_HeapBytes__LockedRO__zeroize_then_readonly::run as fn()),
+    ("HeapBytes__LockedRO__zeroize_then_readwrite", p_HeapBytes__LockedRO__zeroize_then_readwrite::run as fn()),
     ("HeapBytes__UnlockedRW__view_to_vec", p_HeapBytes__UnlockedRW__view_to_vec::run as fn()),
     ("HeapBytes__UnlockedRW__view_iter", p_HeapBytes__UnlockedRW__view_iter::run as fn()),
+    ("HeapBytes__UnlockedRW__zeroize_then_readonly", p_HeapBytes__UnlockedRW__zeroize_then_readonly::run as fn()),
+    ("HeapBytes__UnlockedRW__zeroize_then_readwrite", p_HeapBytes__UnlockedRW__zeroize_then_readwrite::run as fn()),
     ("HeapBytes__UnlockedRO__view_to_vec", p_HeapBytes__UnlockedRO__view_to_vec::run as fn()),
     ("HeapBytes__UnlockedRO__view_iter", p_HeapBytes__UnlockedRO__view_iter::run as fn()),
+    ("HeapBytes__UnlockedRO__zeroize_then_readonly", p_HeapBytes__UnlockedRO__zeroize_then_readonly::run as fn()),
+    ("HeapBytes__UnlockedRO__zeroize_then_readwrite", p_HeapBytes__UnlockedRO__zeroize_then_readwrite::run as fn()),
+    ("HeapBytes__UnlockedNA__zeroize_then_readonly", p_HeapBytes__UnlockedNA__zeroize_then_readonly::run as fn()),
+    ("HeapBytes__UnlockedNA__zeroize_then_readwrite", p_HeapBytes__UnlockedNA__zeroize_then_readwrite::run as fn()),
     ("HeapBytes__UnlockedNA__t_mlock", p_HeapBytes__UnlockedNA__t_mlock::run as fn()),
     ("HeapByteArray32__LockedRW__view_serde_json", p_HeapByteArray32__LockedRW__view_serde_json::run as fn()),
     ("HeapByteArray32__LockedRW__view_bincode", p_HeapByteArray32__LockedRW__view_bincode::run as fn()),
     ("HeapByteArray32__LockedRW__view_to_vec", p_HeapByteArray32__LockedRW__view_to_vec::run as fn()),
     ("HeapByteArray32__LockedRW__view_iter", p_HeapByteArray32__LockedRW__view_iter::run as fn()),
+    ("HeapByteArray32__LockedRW__zeroize_then_readonly", p_HeapByteArray32__LockedRW__zeroize_then_readonly::run as fn()),
+    ("HeapByteArray32__LockedRW__zeroize_then_readwrite", p_HeapByteArray32__LockedRW__zeroize_then_readwrite::run as fn()),
     ("HeapByteArray32__LockedRO__view_to_vec", p_HeapByteArray32__LockedRO__view_to_vec::run as fn()),
     ("HeapByteArray32__LockedRO__view_iter", p_HeapByteArray32__LockedRO__view_iter::run as fn()),
+    ("HeapByteArray32__LockedRO__zeroize_then_readonly", p_HeapByteArray32__LockedRO__zeroize_then_readonly::run as fn()),
+    ("HeapByteArray32__LockedRO__zeroize_then_readwrite", p_HeapByteArray32__LockedRO__zeroize_then_readwrite::run as fn()),
     ("HeapByteArray32__UnlockedRW__view_to_vec", p_HeapByteArray32__UnlockedRW__view_to_vec::run as fn()),
     ("HeapByteArray32__UnlockedRW__view_iter", p_HeapByteArray32__UnlockedRW__view_iter::run as fn()),
+    ("HeapByteArray32__UnlockedRW__zeroize_then_readonly", p_HeapByteArray32__UnlockedRW__zeroize_then_readonly::run as fn()),
+    ("HeapByteArray32__UnlockedRW__zeroize_then_readwrite", p_HeapByteArray32__UnlockedRW__zeroize_then_readwrite::run as fn()),
     ("HeapByteArray32__UnlockedRO__view_to_vec", p_HeapByteArray32__UnlockedRO__view_to_vec::run as fn()),
     ("HeapByteArray32__UnlockedRO__view_iter", p_HeapByteArray32__UnlockedRO__view_iter::run as fn()),
+    ("HeapByteArray32__UnlockedRO__zeroize_then_readonly", p_HeapByteArray32__UnlockedRO__zeroize_then_readonly::run as fn()),
+    ("HeapByteArray32__UnlockedRO__zeroize_then_readwrite", p_HeapByteArray32__UnlockedRO__zeroize_then_readwrite::run as fn()),
+    ("HeapByteArray32__UnlockedNA__zeroize_then_readonly", p_HeapByteArray32__UnlockedNA__zeroize_then_readonly::run as fn()),
+    ("HeapByteArray32__UnlockedNA__zeroize_then_readwrite", p_HeapByteArray32__UnlockedNA__zeroize_then_readwrite::run as fn()),
     ("HeapByteArray32__UnlockedNA__t_mlock", p_HeapByteArray32__UnlockedNA__t_mlock::run as fn()),
     ("HeapByteArray4096__LockedRW__view_serde_json", p_HeapByteArray4096__LockedRW__view_serde_json::run as fn()),
     ("HeapByteArray4096__LockedRW__view_bincode", p_HeapByteArray4096__LockedRW__view_bincode::run as fn()),
     ("HeapByteArray4096__LockedRW__view_to_vec", p_HeapByteArray4096__LockedRW__view_to_vec::run as fn()),
     ("HeapByteArray4096__LockedRW__view_iter", p_HeapByteArray4096__LockedRW__view_iter::run as fn()),
+    ("HeapByteArray4096__LockedRW__zeroize_then_readonly", p_HeapByteArray4096__LockedRW__zeroize_then_readonly::run as fn()),
+    ("HeapByteArray4096__LockedRW__zeroize_then_readwrite", p_HeapByteArray4096__LockedRW__zeroize_then_readwrite::run as fn()),
     ("HeapByteArray4096__LockedRO__view_to_vec", p_HeapByteArray4096__LockedRO__view_to_vec::run as fn()),
     ("HeapByteArray4096__LockedRO__view_iter", p_HeapByteArray4096__LockedRO__view_iter::run as fn()),
+    ("HeapByteArray4096__LockedRO__zeroize_then_readonly", p_HeapByteArray4096__LockedRO__zeroize_then_readonly::run as fn()),
+    ("HeapByteArray4096__LockedRO__zeroize_then_readwrite", p_HeapByteArray4096__LockedRO__zeroize_then_readwrite::run as fn()),
     ("HeapByteArray4096__UnlockedRW__view_to_vec", p_HeapByteArray4096__UnlockedRW__view_to_vec::run as fn()),
     ("HeapByteArray4096__UnlockedRW__view_iter", p_HeapByteArray4096__UnlockedRW__view_iter::run as fn()),
+    ("HeapByteArray4096__UnlockedRW__zeroize_then_readonly", p_HeapByteArray4096__UnlockedRW__zeroize_then_readonly::run as fn()),
+    ("HeapByteArray4096__UnlockedRW__zeroize_then_readwrite", p_HeapByteArray4096__UnlockedRW__zeroize_then_readwrite::run as fn()),
     ("HeapByteArray4096__UnlockedRO__view_to_vec", p_HeapByteArray4096__UnlockedRO__view_to_vec::run as fn()),
     ("HeapByteArray4096__UnlockedRO__view_iter", p_HeapByteArray4096__UnlockedRO__view_iter::run as fn()),
+    ("HeapByteArray4096__UnlockedRO__zeroize_then_readonly", p_HeapByteArray4096__UnlockedRO__zeroize_then_readonly::run as fn()),
+    ("HeapByteArray4096__UnlockedRO__zeroize_then_readwrite", p_HeapByteArray4096__UnlockedRO__zeroize_then_readwrite::run as fn()),
+    ("HeapByteArray4096__UnlockedNA__zeroize_then_readonly", p_HeapByteArray4096__UnlockedNA__zeroize_then_readonly::run as fn()),
+    ("HeapByteArray4096__UnlockedNA__zeroize_then_readwrite", p_HeapByteArray4096__UnlockedNA__zeroize_then_readwrite::run as fn()),
     ("HeapByteArray4096__UnlockedNA__t_mlock", p_HeapByteArray4096__UnlockedNA__t_mlock::run as fn()),
     ("HeapBytesPagePlusSpare__LockedRW__view_serde_json", p_HeapBytesPagePlusSpare__LockedRW__view_serde_json::run as fn()),
     ("HeapBytesPagePlusSpare__LockedRW__view_bincode", p_HeapBytesPagePlusSpare__LockedRW__view_bincode::run as fn()),
     ("HeapBytesPagePlusSpare__LockedRW__view_to_vec", p_HeapBytesPagePlusSpare__LockedRW__view_to_vec::run as fn()),
     ("HeapBytesPagePlusSpare__LockedRW__view_iter", p_HeapBytesPagePlusSpare__LockedRW__view_iter::run as fn()),
+    ("HeapBytesPagePlusSpare__LockedRW__zeroize_then_readonly", p_HeapBytesPagePlusSpare__LockedRW__zeroize_then_readonly::run as fn()),
+    ("HeapBytesPagePlusSpare__LockedRW__zeroize_then_readwrite", p_HeapBytesPagePlusSpare__LockedRW__zeroize_then_readwrite::run as fn()),
     ("HeapBytesPagePlusSpare__LockedRO__view_serde_json", p_HeapBytesPagePlusSpare__LockedRO__view_serde_json::run as fn()),
     ("HeapBytesPagePlusSpare__LockedRO__view_bincode", p_HeapBytesPagePlusSpare__LockedRO__view_bincode::run as fn()),
     ("HeapBytesPagePlusSpare__LockedRO__view_to_vec", p_HeapBytesPagePlusSpare__LockedRO__view_to_vec::run as fn()),
     ("HeapBytesPagePlusSpare__LockedRO__view_iter", p_HeapBytesPagePlusSpare__LockedRO__view_iter::run as fn()),
+    ("HeapBytesPagePlusSpare__LockedRO__zeroize_then_readonly", p_HeapBytesPagePlusSpare__LockedRO__zeroize_then_readonly::run as fn()),
+    ("HeapBytesPagePlusSpare__LockedRO__zeroize_then_readwrite", p_HeapBytesPagePlusSpare__LockedRO__zeroize_then_readwrite::run as fn()),
     ("HeapBytesPagePlusSpare__UnlockedRW__view_to_vec", p_HeapBytesPagePlusSpare__UnlockedRW__view_to_vec::run as fn()),
     ("HeapBytesPagePlusSpare__UnlockedRW__view_iter", p_HeapBytesPagePlusSpare__UnlockedRW__view_iter::run as fn()),
+    ("HeapBytesPagePlusSpare__UnlockedRW__zeroize_then_readonly", p_HeapBytesPagePlusSpare__UnlockedRW__zeroize_then_readonly::run as fn()),
+    ("HeapBytesPagePlusSpare__UnlockedRW__zeroize_then_readwrite", p_HeapBytesPagePlusSpare__UnlockedRW__zeroize_then_readwrite::run as fn()),
     ("HeapBytesPagePlusSpare__UnlockedRO__view_to_vec", p_HeapBytesPagePlusSpare__UnlockedRO__view_to_vec::run as fn()),
     ("HeapBytesPagePlusSpare__UnlockedRO__view_iter", p_HeapBytesPagePlusSpare__UnlockedRO__view_iter::run as fn()),
+    ("HeapBytesPagePlusSpare__UnlockedRO__zeroize_then_readonly", p_HeapBytesPagePlusSpare__UnlockedRO__zeroize_then_readonly::run as fn()),
+    ("HeapBytesPagePlusSpare__UnlockedRO__zeroize_then_readwrite", p_HeapBytesPagePlusSpare__UnlockedRO__zeroize_then_readwrite::run as fn()),
+    ("HeapBytesPagePlusSpare__UnlockedNA__zeroize_then_readonly", p_HeapBytesPagePlusSpare__UnlockedNA__zeroize_then_readonly::run as fn()),
+    ("HeapBytesPagePlusSpare__UnlockedNA__zeroize_then_readwrite", p_HeapBytesPagePlusSpare__UnlockedNA__zeroize_then_readwrite::run as fn()),
     ("HeapBytesPagePlusSpare__UnlockedNA__t_mlock", p_HeapBytesPagePlusSpare__UnlockedNA__t_mlock::run as fn()),
 ];
 
